@@ -65,6 +65,15 @@ def obligations(pid, tier):
                     for first in range(18):
                         obs.append(_ob(pid, name, cap, ndb, ha, ia, hb, ib, wb, wc, kq, live, fl, T, tick, dti, first=first))
     if live:
+        # all connections idle on a, requests arrive for databases that own nothing: F8 is excluded only while the
+        # pool is strictly below capacity (strict_f8), so starvation at full capacity is reported
+        for name, cap, ndb, ha, ia, hb, ib, wb, wc in RECIPES:
+            if name in ('idle-a.cap1.db2', '2idle-a.cap2.db3'):
+                ob = _ob(pid, name, cap, ndb, ha, ia, hb, ib, wb, wc, 3, live, 1, T, False, 0)   # same size in both tiers
+                ob.id = 'full-idle.' + ob.id
+                ob.args += ', True'
+                ob.bound += '; known finding F8 excluded only while the pool is strictly below its capacity'
+                obs.append(ob)
         obs.append(Ob(id='connect_failures', module=M, func='connect_failures', params='cap: int, nwait: int, kind: int, good_first: bool',
                       pre=['1 <= cap <= 3', '1 <= nwait <= 4', '0 <= kind <= 1'], timeout=T, group='connect failures',
                       bound='capacity 1..3, 1..4 concurrent requests on one database; every connect fails (ordinary error until the '
